@@ -18,6 +18,7 @@ import json
 import os
 import sys
 from common import Infra, ndjson
+from fn_lib import judge_cases, load_batches
 
 
 def run(ctx):
@@ -37,10 +38,8 @@ def run(ctx):
     cases = os.path.join(ctx.work, "cases.ndjson")
     hg = ctx.harness([b, "gen", cases], timeout=600)
     ncases = hg["summary"]["cases"]
-    rc = ctx.tlc("fn/TextEncCases", "cfg/TextEncCases.cfg", timeout=3000, tag="cases", files={"cases.ndjson": open(cases).read()})
-    if not rc.ok:
-        raise Infra("TLC failed while judging the recorded cases: violated=%s error=%s\n%s" % (rc.violated, rc.error, rc.out[-2000:]))
-    hc = ctx.harness([b, "cmp", cases, rc.path], timeout=1500)
+    expect, cruns = judge_cases(ctx, "fn/TextEncCases", "cfg/TextEncCases.cfg", cases, chunk=20000)
+    hc = ctx.harness([b, "cmp", cases, expect], timeout=1500)
     if hc["summary"].get("cases") != ncases:
         raise Infra("compared %s of %d cases" % (hc["summary"].get("cases"), ncases))
     samples += hc["samples"][:6]
@@ -50,7 +49,7 @@ def run(ctx):
     for line in open(cases):
         k = json.loads(line)
         kinds[k["i"]] = k["k"]
-    docs = list(rc.exports())
+    docs = load_batches(expect)
     flipped = None
     for batch in docs:
         for e in batch:
@@ -66,7 +65,7 @@ def run(ctx):
     s = ht["summary"]
     evaluations = s["substitution_decodes"] + s["decodes"] + ncases + hf["summary"]["fuzz_calls"]
     ctx.finish("model_checking", dict(
-        states=rt.distinct + rc.distinct, transitions=rt.generated + rc.generated,
+        states=rt.distinct + sum(r.distinct for r in cruns), transitions=rt.generated + sum(r.generated for r in cruns),
         traces_validated_against_impl=s["substitution_decodes"] + s["decodes"] + ncases,
         evaluations=evaluations,
         distinct_nontrivial=s["substitution_decodes"] // 3 + hc["summary"]["decode_reject"],
